@@ -147,6 +147,16 @@ def run(payload):
                 st.start_writing(s); st.append(s, 0); back = st[0]
                 if sm(back.data, st.data[0]) or sm(st.data[0], s.data):
                     fail("storage_aliasing", **tag)
+    # ---- assignment through a label that several members carry (e.g. after fc.append(fc)): only the first one is written
+    from pde import UnitGrid as _UG
+    g = _UG([3])
+    fc = FieldCollection([ScalarField(g, 1.0, label="u"), ScalarField(g, 2.0, label="v")])
+    fc = fc.append(fc)
+    cases += 1
+    fc["u"] = 7.0
+    rows = [float(r[0]) for r in fc.data]
+    if rows != [7.0, 2.0, 1.0, 2.0]:
+        fail("assignment_by_label_writes_other_members", rows=rows, want=[7.0, 2.0, 1.0, 2.0])
     return {"ok": True, "cases": cases, "failures": fails}
 
 
